@@ -133,6 +133,10 @@ class Ctx:
 
     def finish_floors(self):
         for r in self.rules.values():
+            # a rule that already reported a violation may legitimately have stopped enumerating: the violation is
+            # the verdict, not "anchors moved"
+            if any(not i["holds"] for i in r.instances):
+                continue
             if len(r.instances) < r.floor:
                 raise AnalysisError(
                     "rule %s matched %d instance(s), floor is %d: the anchors it enumerates have moved"
